@@ -5,7 +5,7 @@
    column slices, table slices, end marker.  wspec says the writers emit exactly these bytes
    (under any sufficient budget), so the output is a function of the logical content only.
    Statements only; proofs in the *Facts.v files. *)
-From Sbdf Require Import ImpCall Gen.Prog ImpFacts ImpFacts7 ImpFactsFrame.
+From Sbdf Require Import ImpCall Gen.Prog ImpBase ImpFactsWriteStr.
 From Coq Require Import List.
 From Sbdf Require Import File PrimFacts SevenBit ObjFacts VaFacts SliceFacts MdFacts TmFacts FileFacts.
 
